@@ -67,6 +67,10 @@ def getU8 (buf : List UInt8) : Option (Nat × List UInt8) :=
   | [] => none
   | b :: r => some (b.toNat, r)
 
+/-- `Buf::get_u64()` (big-endian): the value and the rest; panics when fewer than 8 bytes remain. -/
+def getU64 (buf : List UInt8) : Option (Nat × List UInt8) :=
+  if 8 ≤ buf.length then some (fromBe (buf.take 8), buf.drop 8) else none
+
 /-- `BytesMut::split_to(n)`: the first `n` bytes and the rest; panics when `n` is beyond the end. -/
 def splitTo (buf : List UInt8) (n : Nat) : Option (List UInt8 × List UInt8) :=
   if n ≤ buf.length then some (buf.take n, buf.drop n) else none
